@@ -4,31 +4,167 @@
 // Input lines ($VERIF_IN): the registration operations of harness/c17 (reset, route, routef, unroute, default, defaultf,
 // mw) and
 //
-//	wire <udp|tcp|tcpsrv> <code> <segments> <hex of the datagram / frame>
+//	wire <udp|tcp|tcpsrv|udpsrv>[+obsfail:<token>|+discfail:<token>] <code> <segments> <hex of the datagram / frame>
 //
 // (<code> and <segments> are for the model and the judge; this harness only uses the bytes). Every `wire` line gets a
 // fresh connection inside a synctest bubble: udp = udp/client.Conn over an in-memory session, handler set by
 // options.WithMux(h).UDPClientApply; tcp = tcp.Client over net.Pipe, options.WithMux(h).TCPClientApply; tcpsrv = a
 // connection accepted by a real tcp.Server configured with options.WithMux(h) (TCPServerApply). Output: the same
-// report as `serve` of harness/c17 (`none` when no handler ran), or `process-error`.
+// report as `serve` of harness/c17 (`none` when no handler ran), or `process-error`. udpsrv = a real udp.Server
+// (options.WithMux(h): UDPServerApply) on a loopback socket, the datagram sent from a plain UDP socket, followed by a
+// sentinel datagram: the per-peer connection handles its messages one after another, so when the sentinel arrives the
+// request has been dealt with.
+//
+// Preambles (the request carries the same token): +obsfail = before the request arrives the application calls
+// DoObserve on the connection under that token against the silent peer and the registration ends by its deadline;
+// +discfail (udpsrv) = the application starts Server.DiscoveryRequest under that token with a context that is already
+// done, so the datagram cannot be written. Either way the exchange has FAILED and returned an error; a later request
+// with that token is an ordinary request for the router.
 package c17wire
 
 import (
 	"bufio"
+	"bytes"
+	"context"
 	"fmt"
+	"net"
+	"strings"
 	"testing"
 	"testing/synctest"
+	"time"
 
+	"github.com/plgd-dev/go-coap/v3/message"
+	"github.com/plgd-dev/go-coap/v3/message/pool"
+	"github.com/plgd-dev/go-coap/v3/mux"
+	coapNet "github.com/plgd-dev/go-coap/v3/net"
+	coapclient "github.com/plgd-dev/go-coap/v3/net/client"
 	"github.com/plgd-dev/go-coap/v3/options"
 	tcpclient "github.com/plgd-dev/go-coap/v3/tcp/client"
+	"github.com/plgd-dev/go-coap/v3/udp"
 	udpclient "github.com/plgd-dev/go-coap/v3/udp/client"
 	"verifharness/c17core"
 	"verifharness/internal/lp"
 	"verifharness/internal/mem"
 )
 
+// observer is what the connection types have in common for the +obsfail preamble.
+type observer interface {
+	NewObserveRequest(ctx context.Context, path string, opts ...message.Option) (*pool.Message, error)
+	DoObserve(req *pool.Message, observeFunc func(req *pool.Message)) (coapclient.Observation, error)
+}
+
+// failedObserve registers an observation under the token that times out (the peer never answers). Reports whether the
+// registration really failed.
+func failedObserve(cc observer, token []byte, udp bool) bool {
+	ctx, cancel := context.WithTimeout(context.Background(), 2*time.Second)
+	defer cancel()
+	req, err := cc.NewObserveRequest(ctx, "/obs")
+	if err != nil {
+		return false
+	}
+	req.SetToken(token)
+	if udp {
+		req.SetType(message.NonConfirmable) // no wait for an ACK: the registration waits for the first notification
+	}
+	_, err = cc.DoObserve(req, func(*pool.Message) {})
+	return err != nil
+}
+
+var sentinelToken = message.Token{0x5e, 0x17, 0x17, 0xe1, 0x00, 0x01}
+
+func wireUDPServer(st *c17core.State, pre string, token []byte, data []byte) string {
+	inner := c17core.Handler(func() *c17core.State { return st })
+	sentinel := make(chan struct{}, 1)
+	h := mux.HandlerFunc(func(w mux.ResponseWriter, r *mux.Message) {
+		if bytes.Equal(r.Token(), sentinelToken) {
+			select {
+			case sentinel <- struct{}{}:
+			default:
+			}
+			return
+		}
+		inner.ServeCOAP(w, r)
+	})
+	l, err := coapNet.NewListenUDP("udp4", "127.0.0.1:0")
+	if err != nil {
+		return "conn-error"
+	}
+	defer func() { _ = l.Close() }()
+	s := udp.NewServer(options.WithMux(h), options.WithErrors(func(error) {}))
+	served := make(chan struct{})
+	go func() { _ = s.Serve(l); close(served) }()
+	defer func() { s.Stop(); <-served }()
+	if pre == "discfail" {
+		ctx, cancel := context.WithCancel(context.Background())
+		cancel()
+		dreq := pool.NewMessage(ctx)
+		if err := dreq.SetupGet("/oic/res", token); err != nil {
+			return "bad-op"
+		}
+		dreq.SetMessageID(message.GetMID())
+		dreq.SetType(message.NonConfirmable)
+		// Serve must have taken the listener before a discovery can be started
+		var derr error
+		for i := 0; i < 200; i++ {
+			derr = s.DiscoveryRequest(dreq, "127.0.0.1:5683", func(*udpclient.Conn, *pool.Message) {})
+			if derr == nil || !strings.Contains(derr.Error(), "doesn't serve connection") {
+				break
+			}
+			time.Sleep(time.Millisecond)
+		}
+		if derr == nil || strings.Contains(derr.Error(), "doesn't serve connection") {
+			return "preamble-did-not-fail"
+		}
+	}
+	c, err := net.Dial("udp4", l.LocalAddr().String())
+	if err != nil {
+		return "conn-error"
+	}
+	defer func() { _ = c.Close() }()
+	st.Begin()
+	if _, err := c.Write(data); err != nil {
+		return "process-error"
+	}
+	// sentinel: NON GET with the sentinel token and no options
+	sd := append([]byte{0x50 | byte(len(sentinelToken)), 0x01, 0x7f, 0x01}, sentinelToken...)
+	for attempt := 0; attempt < 20; attempt++ {
+		sd[3] = byte(attempt + 1)
+		if _, err := c.Write(sd); err != nil {
+			return "process-error"
+		}
+		select {
+		case <-sentinel:
+			return st.Report()
+		case <-time.After(100 * time.Millisecond):
+		}
+	}
+	return "sentinel-lost " + st.Report()
+}
+
 func wireOnce(t *testing.T, st *c17core.State, transport string, data []byte) (line string) {
 	h := c17core.Handler(func() *c17core.State { return st })
+	pre, token := "", []byte(nil)
+	if i := strings.IndexByte(transport, '+'); i >= 0 {
+		p := strings.SplitN(transport[i+1:], ":", 2)
+		transport = transport[:i]
+		if len(p) != 2 {
+			return "bad-op"
+		}
+		tok, err := lp.ParseHex(p[1])
+		if err != nil || len(tok) == 0 {
+			return "bad-op"
+		}
+		pre, token = p[0], tok
+	}
+	if transport == "udpsrv" {
+		if pre != "" && pre != "discfail" {
+			return "bad-op"
+		}
+		return wireUDPServer(st, pre, token, data)
+	}
+	if pre != "" && pre != "obsfail" {
+		return "bad-op"
+	}
 	synctest.Test(t, func(t *testing.T) {
 		defer func() {
 			if r := recover(); r != nil {
@@ -41,6 +177,11 @@ func wireOnce(t *testing.T, st *c17core.State, transport string, data []byte) (l
 			cc, _ := mem.NewUDPConn(mem.UDPOpts{Mutate: func(cfg *udpclient.Config) {
 				options.WithMux(h).UDPClientApply(cfg)
 			}})
+			if pre == "obsfail" && !failedObserve(cc, token, true) {
+				line = "preamble-did-not-fail"
+				return
+			}
+			st.Begin()
 			err := cc.Process(nil, data)
 			synctest.Wait()
 			line = st.Report()
@@ -58,6 +199,11 @@ func wireOnce(t *testing.T, st *c17core.State, transport string, data []byte) (l
 				return
 			}
 			synctest.Wait()
+			if pre == "obsfail" && !failedObserve(cc, token, false) {
+				line = "preamble-did-not-fail"
+				return
+			}
+			st.Begin()
 			werr := peer.Write(data)
 			synctest.Wait()
 			line = st.Report()
@@ -74,6 +220,11 @@ func wireOnce(t *testing.T, st *c17core.State, transport string, data []byte) (l
 				return
 			}
 			synctest.Wait()
+			if pre == "obsfail" && !failedObserve(cc, token, false) {
+				line = "preamble-did-not-fail"
+				return
+			}
+			st.Begin()
 			werr := peer.Write(data)
 			synctest.Wait()
 			line = st.Report()
